@@ -130,6 +130,12 @@ def call(I, name, args, kwargs, fr):
     if name == "pow2":
         return VInt(smt.pow2(zint(args[0].t)))
     if name == "utf8enc":
+        c = ropes.conc_value(args[0])
+        if isinstance(c, str):
+            try:
+                return ropes.const_seq(c.encode("utf-8"))
+            except UnicodeEncodeError:
+                pass
         r = smt.utf8enc(ropes.seq_term(st, args[0]))
         st.assume(smt.slen(r) >= 0)
         return VSeq([Seg("A", r, smt.slen(r))], "bytes")
